@@ -1,4 +1,5 @@
-(* Parser model driver: `<case> <class> <doc|frag> <srclen> | <tokens> | ...` -> `<case> <observation>` *)
+(* Parser model driver: `<case> <class> <doc|bomdoc|frag> <srclen> | <tokens> | ...` -> `<case> <observation>`
+   (bomdoc: a document whose text starts with a byte order mark) *)
 open Caseio
 open Parseio
 
@@ -12,7 +13,7 @@ let () =
        | [_cls; mode; srclen] ->
          let ts = tokens_of (String.trim toks) in
          let r = if mode = "frag" then Builder.parse_fragment b t0 (n_of_int 0) ts
-           else Builder.parse_document b t0 (n_of_int 0) (n_of_int (int_of_string srclen)) ts in
+           else Builder.parse_document_at b (mode = "bomdoc") t0 (n_of_int 0) (n_of_int (int_of_string srclen)) ts in
          (* the shape Proofs/BuilderTotal.v assumes of xmlparser's token stream is checked on every stream it produced *)
          if not (Builder.stream_shape false ts) then print_endline (case ^ " TOKEN-SHAPE-BROKEN")
          else print_endline (case ^ " " ^ parsed_text b r)
